@@ -582,6 +582,18 @@ Definition validate_wrapper (return_errors has_report : bool) (r : result (list 
        if has_report then report_lines l else [])
   end.
 
+(* ---------- a lookup-preserving rearrangement of the tables (speed of the correspondence runs) ----------
+   The model reads the tables only through `slookup`.  `front P l` puts a copy of the entries whose key
+   satisfies P before l; every lookup gives the same answer (Proofs/ValidateFacts.v: slookup_front), and
+   the entries the cases of one file need are found at the head of the list. *)
+Definition front {B} (P : str -> bool) (l : list (str * B)) : list (str * B) :=
+  filter (fun p => P (fst p)) l ++ l.
+Definition front_tables (segs dts : list str) (t : tables) : tables :=
+  mk_tables (t_version t) (t_segments t)
+            (front (fun k => smem (take 3 k) segs) (t_fields t))
+            (front (fun k => match rsplit_us k with Some (p, _) => smem p dts | None => false end) (t_components t))
+            (t_structs t) (t_messages t) (t_groups t) (t_base_datatypes t).
+
 (* ---------- canonical text of an error (what the correspondence harness compares) ---------- *)
 
 Definition okey (o : option str) : str := str_of_opt o.
